@@ -391,7 +391,7 @@ class C05(SystematicMixin, LegacyMixin, E2ECheck):
                         's3.complete_multipart_upload', 'src.read',
                         'fs.read', 'cb.on_queued', 'cb.on_progress',
                         's3.head_object', 's3.abort_multipart_upload'],
-        'max_faults': 2, 'cancels': 2,
+        'min_faults': 1, 'max_faults': 2, 'cancels': 2,
         'ends': ['shutdown', 'shutdown', 'shutdown_cancel', 'with_exc'],
     }
     rule = ('cases = multipart-biased uploads/copies x fault plan (create / '
